@@ -98,6 +98,20 @@ func lowerOpt() []resource.Option {
 	return nil
 }
 
+// restrictW: the model's collection is built with writable fields that do not include the items' key (clients may
+// change a title, not more). What the model's own Create / Add files under a key still carries that key.
+var restrictW bool
+
+var restrictable = map[string]bool{"electric.ListModes": true, "hail.ListHails": true, "publication.ListPublications": true, "vending.ListConsumables": true, "vending.ListInventory": true}
+
+func collOpt(m proto.Message, field string) []resource.Option {
+	o := lowerOpt()
+	if restrictW {
+		o = append(o, resource.WithWritablePaths(m, field))
+	}
+	return o
+}
+
 func usable(ids []string) []string {
 	if !lowerIDs {
 		return ids
@@ -128,7 +142,7 @@ var lowerable = map[string]bool{"electric.ListModes": true, "publication.ListPub
 var listers = []lister{
 	{"electric.ListModes", func(ids []string) (func(int32, string) (page, error), []string) {
 		ids = usable(ids)
-		m := electricpb.NewModel(electricpb.WithModeOption(lowerOpt()...))
+		m := electricpb.NewModel(electricpb.WithModeOption(collOpt(&traits.ElectricMode{}, "title")...))
 		for _, id := range ids {
 			if upsertItems {
 				if _, err := m.UpdateMode(&traits.ElectricMode{Id: id, Title: "t" + id}, resource.WithCreateIfAbsent(), resource.WithUpdatePaths("title")); err != nil {
@@ -155,7 +169,7 @@ var listers = []lister{
 		}, sorted(ids)
 	}},
 	{"hail.ListHails", func(ids []string) (func(int32, string) (page, error), []string) {
-		m := hailpb.NewModel(hailpb.WithKeepAlive(-1), resource.WithRNG(&seqReader{}))
+		m := hailpb.NewModel(append(collOpt(&traits.Hail{}, "state"), hailpb.WithKeepAlive(-1), resource.WithRNG(&seqReader{}))...)
 		var got []string
 		for range ids { // hail ids are always generated
 			h, err := m.CreateHail(&traits.Hail{})
@@ -199,7 +213,7 @@ var listers = []lister{
 	}},
 	{"publication.ListPublications", func(ids []string) (func(int32, string) (page, error), []string) {
 		ids = usable(ids)
-		m := publicationpb.NewModel(publicationpb.WithPublicationOption(lowerOpt()...))
+		m := publicationpb.NewModel(publicationpb.WithPublicationOption(collOpt(&traits.Publication{}, "body")...))
 		for _, id := range ids {
 			if _, err := m.CreatePublication(&traits.Publication{Id: id}); err != nil {
 				panic(err)
@@ -221,7 +235,7 @@ var listers = []lister{
 	}},
 	{"vending.ListConsumables", func(ids []string) (func(int32, string) (page, error), []string) {
 		ids = usable(ids)
-		m := vendingpb.NewModel(vendingpb.WithConsumablesOption(lowerOpt()...))
+		m := vendingpb.NewModel(vendingpb.WithConsumablesOption(collOpt(&traits.Consumable{}, "title")...))
 		for _, id := range ids {
 			if upsertItems {
 				if _, err := m.UpdateConsumable(&traits.Consumable{Name: id, Title: "t" + id}, resource.WithCreateIfAbsent(), resource.WithUpdatePaths("title")); err != nil {
@@ -249,7 +263,7 @@ var listers = []lister{
 	}},
 	{"vending.ListInventory", func(ids []string) (func(int32, string) (page, error), []string) {
 		ids = usable(ids)
-		m := vendingpb.NewModel(vendingpb.WithInventoryOption(lowerOpt()...))
+		m := vendingpb.NewModel(vendingpb.WithInventoryOption(collOpt(&traits.Consumable_Stock{}, "last_dispensed")...))
 		for _, id := range ids {
 			if upsertItems {
 				if _, err := m.UpdateStock(&traits.Consumable_Stock{Consumable: id, LastDispensed: &traits.Consumable_Quantity{Amount: 1}}, resource.WithCreateIfAbsent(), resource.WithUpdatePaths("last_dispensed")); err != nil {
@@ -304,15 +318,16 @@ var listers = []lister{
 }
 
 type pcase struct {
-	Lister string
-	Ids    []string
-	Size   int32
-	Token  string // "": walk the chain from the start; else start from this (corrupted) token
-	Masked bool   // the requests carry a read mask that leaves out the items' key
-	Then   int32  // != 0: every page after the first is requested with this page size instead
-	Lower  bool   // the model's collection lower-cases ids (id interceptor)
-	Upsert bool   // the items were created by masked upserts
-	PT     bool   // the lister's real tokens are base64 of a types.PageToken, and Token does NOT decode as one: it is malformed and must be refused
+	Lister     string
+	Ids        []string
+	Size       int32
+	Token      string // "": walk the chain from the start; else start from this (corrupted) token
+	Masked     bool   // the requests carry a read mask that leaves out the items' key
+	Then       int32  // != 0: every page after the first is requested with this page size instead
+	Lower      bool   // the model's collection lower-cases ids (id interceptor)
+	Upsert     bool   // the items were created by masked upserts
+	Restricted bool   // the model's collection has writable fields configured that leave out the key
+	PT         bool   // the lister's real tokens are base64 of a types.PageToken, and Token does NOT decode as one: it is malformed and must be refused
 }
 
 // decodesAsPageToken: the token format of every paged server here but waste.
@@ -339,8 +354,15 @@ func walk(l lister, c pcase, fail func(k, m string), tokens map[string]bool) {
 	useMask = c.Masked
 	lowerIDs = c.Lower
 	upsertItems = c.Upsert
-	defer func() { useMask, lowerIDs, upsertItems = false, false, false }()
-	list, want := l.build(c.Ids)
+	restrictW = c.Restricted
+	defer func() { useMask, lowerIDs, upsertItems, restrictW = false, false, false, false }()
+	var list func(int32, string) (page, error)
+	var want []string
+	buildPanic := func() (p any) {
+		defer func() { p = recover() }()
+		list, want = l.build(c.Ids)
+		return nil
+	}()
 	key := func(clause string) string {
 		ids := strings.Join(c.Ids, ",")
 		if len(c.Ids) > 8 {
@@ -358,7 +380,14 @@ func walk(l lister, c pcase, fail func(k, m string), tokens map[string]bool) {
 		if c.Upsert {
 			clause += "(items created by masked upserts)"
 		}
+		if c.Restricted {
+			clause += "(collection with writable fields that leave out the key)"
+		}
 		return fmt.Sprintf("%s %s size=%d ids=[%s] token=%q", clause, c.Lister, c.Size, ids, c.Token)
+	}
+	if buildPanic != nil {
+		fail(key("items-refused"), fmt.Sprintf("the model refused to create the items to list: %v", buildPanic))
+		return
 	}
 	size := c.Size
 	call := func(tok string) (p page, err error, pan any) {
@@ -583,6 +612,18 @@ func main() {
 						s.Eval(1)
 						s.Trans(1)
 						walk(l, cu, func(k, m string) { s.Fail(k, m, cu) }, nil)
+					}
+					if restrictable[l.name] && size > 0 && size <= 3 && len(ids) <= 8 {
+						for _, ups := range []bool{false, true} {
+							if ups && !upsertable[l.name] {
+								continue
+							}
+							cr := c
+							cr.Restricted, cr.Upsert = true, ups
+							s.Eval(1)
+							s.Trans(1)
+							walk(l, cr, func(k, m string) { s.Fail(k, m, cr) }, nil)
+						}
 					}
 					if size > 0 && size <= 7 && len(ids) <= 60 {
 						// the same walk with a read mask that leaves the items' key out
